@@ -744,19 +744,8 @@ Definition delta_within (prev cur maybe : list (list Z)) : bool :=
   mset_sub (map strip_idx prev) (map strip_idx cur) &&
   mset_sub (map strip_idx cur) (map strip_idx (prev ++ maybe)).
 
-(* fail-fast steps never failing: an upper bound for what a panicking parallel run may append *)
-Definition relax_builder (b : builder) : builder :=
-  match b with
-  | BWithMode FailFast c => BWithMode SkipInvalid c
-  | BFailFast => BSkipInvalid
-  | _ => b
-  end.
-Definition relax_step (s : tstep) : tstep :=
-  match s with
-  | TValidate b => TValidate (relax_builder b)
-  | TValidateValues b => TValidateValues (relax_builder b)
-  | _ => s
-  end.
+(* relax_step (Validation/Tree.v): fail-fast steps never failing = an upper bound for what a
+   panicking parallel run may append (c17_tree_panic_bound) *)
 
 (* ---- reference: list semantics of a lineage in written order, on integer rows ---- *)
 Definition add_last (c : Z) (row : list Z) : list Z :=
@@ -922,6 +911,36 @@ Definition judge_views (keyed seq : bool) (rows : list (list Z)) (o : obs)
   | _ => (false, false)
   end.
 
+(* views at scale: summaries [entries; sum of codes; number of errors] of errors(), to_json(),
+   write_to_file(), clone(), then the displayed count and error_count *)
+Definition judge_views_big (keyed : bool) (n : nat) (m t : Z) (o : J) : option (bool * bool) :=
+  match o with
+  | JL [tg; v0; v1; v2; v3; JI shown; JI cnt] =>
+      if jtag_is "ok" tg then
+        match omap jints [v0; v1; v2; v3] with
+        | Some views =>
+            let want_model :=
+              match model_big keyed LogAndContinue true n m t 1 0 with
+              | Ok (_, lg) => Some (sum_entries lg)
+              | _ => None
+              end in
+            let '(_, tot) := ref_big n m t 1 0 0 0 0 0 in
+            let want_ref := match tot with [bad; codes; nerrs; _] => Some [bad; codes; nerrs]
+                                         | _ => None end in
+            let all_are (w : option (list Z)) :=
+              match w with
+              | Some l => forallb (zl_eqb l) views && (shown =? hd (-1) l) && (cnt =? hd (-1) l)
+              | None => false
+              end in
+            Some (all_are want_model, all_are want_ref)
+        | None => None
+        end
+      else None
+  | JL [tg] => if jtag_is "panic" tg then Some (false, false) else None
+  | JL [tg; _] => if jtag_is "err" tg then Some (false, false) else None
+  | _ => None
+  end.
+
 (* ---------- entry point ---------- *)
 Definition finish (r : option (bool * bool)) : verdict :=
   match r with Some (a, p) => ok_verdict a p | None => malformed end.
@@ -1007,6 +1026,18 @@ Definition check_C17 (kind : string) (input output : J) : verdict :=
         | None => malformed
         end
     | _, _ => malformed
+    end
+  else if String.eqb kind "viewsbig" then
+    match input with
+    | JL [jk; JI n; JI m; JI t; JI _] =>
+        match jbit jk with
+        | Some keyed =>
+            if (0 <=? n) && (1 <=? m) && (0 <=? t)
+            then finish (judge_views_big keyed (Z.to_nat n) m t output)
+            else malformed
+        | None => malformed
+        end
+    | _ => malformed
     end
   else if String.eqb kind "row" then
     (* in = [keyed, len, bits, maxp]; out = one outcome per row_cfgs entry *)
